@@ -401,59 +401,74 @@ def rule_scheme_tokens(run, F, cfg):
 
 
 def rule_tokenizer_table(run, F, cfg):
-    """fast_tokenizer_no_regex as a table over its state variables (variable-level rendering): a token is
-    emitted only when neither neighbour is `*`, and `preceding_ch` is refreshed at every non-token character"""
+    """fast_tokenizer_no_regex as a table over its state variables (variable-level rendering, compared modulo
+    the variables' names): a token is emitted only when neither neighbour is `*`; the token state machine;
+    the previous-character tracking."""
     t = F.fn("utils::fast_tokenizer_no_regex")
     from analysis.guards import dominating_conditions as _dc
-    pushes = t.calls(r"^std::vec::Vec::push$")
-    STAR_PREV = "std::cmp::PartialEq::ne($preceding_ch, std::option::Option::Some{0: '*'})"
-    rows = []
-    for b, tm in pushes:
+    from analysis.names import renaming
+
+    def conds(b):
+        out = set()
+        for k, v in _dc(t, b, render=t.vexpr_operand).items():
+            if re.match(r"^\$\w+$", k):
+                out.add((k, v))
+            elif re.match(r"^\(\$\w+ (Ne|Eq) '\*'\)$", k):
+                out.add((k, v))
+            elif re.match(r"^std::cmp::PartialEq::(ne|eq)\(\$\w+, std::option::Option::Some\{0: '\*'\}\)$", k):
+                out.add((k, v))
+            elif re.match(r"^std::ops::Fn::call \[virtual\]\((\$\w+), ", k):
+                out.add(("allowed(" + re.match(r"^std::ops::Fn::call \[virtual\]\((\$\w+), ", k).group(1) + ")", v))
+        return frozenset(out)
+
+    pushes = []
+    for b, tm in t.calls(r"^std::vec::Vec::push$"):
         c = _dc(t, b, render=t.vexpr_operand)
         in_loop = any(k.startswith("discr(") and "next(" in k and v == 1 for k, v in c.items())
-        rows.append((b, in_loop, c))
-    ok = len(rows) == 2 and sorted(r[1] for r in rows) == [False, True]
-    detail = []
-    for b, in_loop, c in rows:
-        prev = c.get(STAR_PREV) == 1
-        inside = c.get("$inside") == 1
-        if in_loop:
-            nxt = c.get("($c Ne '*')") == 1
-            sep = any("$is_allowed_code" in k and v == 0 for k, v in c.items())
-            good = prev and nxt and inside and sep
-        else:
-            good = prev and inside and c.get("$skip_last_token") == 0
-        detail.append(f"{t.loc(b)}: in_loop={in_loop} prev!=*:{prev} inside:{inside} ok={good}")
-        ok = ok and good
-    run.ob("C01.4.token-boundary", "token-emission-table", ok,
-           "fast_tokenizer_no_regex emits a token (a) inside the loop only at a non-token character, while inside a "
-           "token, when that character is not `*` and the character before the token was not `*`; (b) after the loop "
-           "only when !skip_last_token, inside a token, and the character before the token was not `*`",
-           site=t.loc(0), config=cfg, detail="; ".join(detail))
-    # preceding_ch = Some(c) on every non-token character (both the token-ending and the idle branch)
-    upd = []
+        pushes.append((in_loop, conds(b)))
+    updates = []
     for b, i, st in t.statements():
-        if st["k"] == "assign" and not st["pl"]["p"] and t.varnames.get(st["pl"]["l"]) == "preceding_ch":
+        if st["k"] == "assign" and not st["pl"]["p"] and st["pl"]["l"] in t.varnames and st["pl"]["l"] > t.argc:
+            ty = str(t.locals[st["pl"]["l"]].get("ty") if isinstance(t.locals[st["pl"]["l"]], dict) else t.locals[st["pl"]["l"]])
+            if ty not in ("bool", "usize", "std::option::Option<char>"):
+                continue
             val = t.vexpr_rvalue(st["rv"])
-            c = _dc(t, b, render=t.vexpr_operand)
-            sep = [v for k, v in c.items() if "$is_allowed_code" in k]
-            upd.append((val.startswith("std::option::Option::Some{0: "), sep[0] if sep else None, c.get("$inside")))
-    # the token state machine: inside / start
-    st_upd = []
-    for b, i, st in t.statements():
-        if st["k"] == "assign" and not st["pl"]["p"] and t.varnames.get(st["pl"]["l"]) in ("inside", "start"):
-            c = _dc(t, b, render=t.vexpr_operand)
-            sep = [v for k, v in c.items() if "$is_allowed_code" in k]
-            st_upd.append((t.varnames[st["pl"]["l"]], t.vexpr_rvalue(st["rv"]), sep[0] if sep else None, c.get("$inside")))
-    want_st = sorted([("inside", "false", None, None), ("start", "0", None, None), ("inside", "true", 1, 0),
-                      ("start", "$i", 1, 0), ("inside", "false", 0, 1)], key=str)
-    run.ob("C01.4.token-boundary", "token-state-machine", sorted(st_upd, key=str) == want_st,
-           "a token starts (inside = true, start = i) at a token character while outside one and ends (inside = false) "
-           f"at a non-token character while inside one; no other update ({st_upd})", site=t.loc(0), config=cfg)
-    want = sorted([(False, None, None), (True, 0, 0), (True, 0, 1)], key=str)
-    run.ob("C01.4.token-boundary", "preceding-char-tracking", sorted(upd, key=str) == want,
-           "preceding_ch starts as None and is set to Some(current char) at every non-token character, whether or "
-           f"not a token just ended (updates: {upd})", site=t.loc(0), config=cfg)
+            if val.startswith("std::option::Option::Some{0: "):
+                val = "Some(current char)"
+            elif "Iterator>::next(" in val:
+                continue   # loop pattern bindings (i, c)
+            updates.append(("$" + t.varnames[st["pl"]["l"]], val, conds(b)))
+    STAR_PREV = ("std::cmp::PartialEq::ne($preceding_ch, std::option::Option::Some{0: '*'})", 1)
+    want = {
+        "pushes": sorted([
+            (True, frozenset({("allowed($is_allowed_code)", 0), ("$inside", 1), ("($c Ne '*')", 1), STAR_PREV})),
+            (False, frozenset({("$skip_last_token", 0), ("$inside", 1), STAR_PREV})),
+        ], key=repr),
+        "updates": {
+            ("$inside", "false", frozenset()): 1, ("$start", "0", frozenset()): 1,
+            ("$preceding_ch", "std::option::Option::None{}", frozenset()): 1,
+            ("$inside", "true", frozenset({("allowed($is_allowed_code)", 1), ("$inside", 0)})): 1,
+            ("$start", "$i", frozenset({("allowed($is_allowed_code)", 1), ("$inside", 0)})): 1,
+            ("$inside", "false", frozenset({("allowed($is_allowed_code)", 0), ("$inside", 1)})): 1,
+            ("$preceding_ch", "Some(current char)", frozenset({("allowed($is_allowed_code)", 0), ("$inside", 1)})): 1,
+            ("$preceding_ch", "Some(current char)", frozenset({("allowed($is_allowed_code)", 0), ("$inside", 0)})): 1,
+        },
+    }
+    from collections import Counter
+    got = {"pushes": sorted(pushes, key=repr), "updates": dict(Counter(updates))}
+    # `pushes` order is by repr, which depends on names: compare as a set instead
+    got["pushes"] = frozenset(got["pushes"])
+    want["pushes"] = frozenset(want["pushes"])
+    ren = renaming(got, want, fixed=())
+    run.ob("C01.4.token-boundary", "tokenizer-table", ren is not None,
+           "fast_tokenizer_no_regex (modulo the names of its variables): a token is emitted (a) inside the loop only at a "
+           "non-token character, while inside a token, when that character is not `*` and the character before the "
+           "token was not `*`; (b) after the loop only when !skip_last_token, inside a token, and the character before "
+           "it was not `*`. State: a token starts (inside = true, start = i) at a token character while outside one and "
+           "ends at a non-token character while inside one; the previous character is None at first and is set to the "
+           "current character at EVERY non-token character. No other update of these variables.",
+           site=t.loc(0), config=cfg,
+           detail=f"extracted pushes: {sorted(got['pushes'], key=repr)}; updates: {sorted(got['updates'], key=repr)}")
 
 
 def rule_token_sources(run, F, cfg):
@@ -466,35 +481,51 @@ def rule_token_sources(run, F, cfg):
     def sh(k):
         return re.sub(r"filters::network::(NetworkFilterMaskHelper::|NetworkFilterMask::|_::)?", "", k)
 
+    # the token vector: the variable that is returned as the single group `vec![tokens]`
+    tok = None
+    for b, i, st in g.statements():
+        if st["k"] == "assign" and st["rv"]["k"] == "agg" and st["rv"].get("agg") == "array" and len(st["rv"]["ops"]) == 1:
+            v = g.vexpr_operand(st["rv"]["ops"][0])
+            if re.match(r"^\$\w+$", v):
+                tok = v
+    if tok is None:
+        run.ob("C01.1.token-source", "source:token-vector", False, "the vector returned as `vec![tokens]` was not found",
+               status="UNDISCHARGED", config=cfg)
+        return
+    # sources are recognised by the PROVENANCE of the value written (flow-insensitive, no local names)
     SOURCES = [
-        # (name, regex over the call, [(regex over a condition, value)] that must all dominate, why)
-        ("single-domain", r"^std::vec::Vec::push\(\$tokens, \$domain\)$",
+        # (name, callee regex, regex over the provenance of the written value, [(condition regex, value)], why)
+        ("single-domain", r"Vec::push$", r"core::slice::first\(.*arg:self\.opt_domains.*\)@Some\.0$",
          [(r"PartialEq>::eq\(std::option::Option::map\(std::option::Option::as_ref\(\$self\.opt_domains\), closure\[.*\]\(\)\), std::option::Option::Some\{0: 1\}\)$", 1)],
          "the only positive domain: every request the rule matches comes from it (with two domains the first one "
          "is absent from requests of the second)"),
-        ("pattern", r"^std::vec::Vec::append\(\$tokens, \$filter_tokens\)$", [(r"^is_complete_regex\(\$self\)$", 0)],
+        ("pattern", r"Vec::append$", r"^utils::tokenize_filter\(", [(r"^is_complete_regex\(\$self\)$", 0)],
          "tokens of a plain / wildcard pattern (boundaries: C01.4)"),
-        ("hostname", r"^std::vec::Vec::append\(\$tokens, \$hostname_tokens\)$", [(r"^contains\(\$self\.mask, IS_HOSTNAME_REGEX\)$", 0)],
+        ("hostname", r"Vec::append$", r"^utils::tokenize\(.*arg:self\.hostname", [(r"^contains\(\$self\.mask, IS_HOSTNAME_REGEX\)$", 0)],
          "labels of a literal hostname (a hostname with wildcards yields fragments)"),
-        ("removeparam", r"^std::vec::Vec::append\(\$tokens, \$param_tokens\)$", [(r"^contains\(\$self\.mask, IS_REMOVEPARAM\)$", 1)],
+        ("removeparam", r"Vec::append$", r"^utils::tokenize\(.*to_ascii_lowercase\(.*arg:self\.modifier_option", [(r"^contains\(\$self\.mask, IS_REMOVEPARAM\)$", 1)],
          "see removeparam-name-tokens"),
-        ("scheme", r'^std::vec::Vec::push\(\$tokens, utils::fast_hash\("https?"\)\)$', [], "see scheme-token:*"),
+        ("scheme", r"Vec::push$", r'^utils::fast_hash\("https?"\)$', [], "see scheme-token:*"),
     ]
     seen = {}
     unknown = []
     for b, t in g.calls(r"^std::vec::Vec::(push|append|extend|extend_from_slice|insert)$"):
-        e = sh(g.vexpr_call(t))
-        if not re.search(r"\(\$tokens\b", e):
+        if g.vexpr_operand(t["args"][0]) != tok:
             continue
+        prov = sh(g.expr_operand(t["args"][-1]))
+        if "…" in prov:
+            # depth-truncated: append the leaves of the provenance tree
+            prov += " <- " + " ".join(sorted(x for x in g.deep_origins(t["args"][-1]) if x.startswith("arg:")))
+        cal = strip_generics(t["callee"])
         c = {sh(k): v for k, v in _dc(g, b, render=g.vexpr_operand).items()}
-        for name, rx, need, why in SOURCES:
-            if re.search(rx, e):
+        for name, crx, prx, need, why in SOURCES:
+            if re.search(crx, cal) and re.search(prx, prov):
                 ok = all(any(re.search(nr, k) and v == nv for k, v in c.items()) for nr, nv in need)
                 seen.setdefault(name, []).append((ok, g.loc(b), why))
                 break
         else:
-            unknown.append((e[:120], g.loc(b)))
-    for name, rx, need, why in SOURCES:
+            unknown.append((cal.split("::")[-1] + "(" + prov[:100] + ")", g.loc(b)))
+    for name, crx, prx, need, why in SOURCES:
         got = seen.get(name, [])
         run.ob("C01.1.token-source", f"source:{name}", bool(got) and all(o for o, _, _ in got),
                f"get_tokens source `{name}`: {why}; required guard {need} "
